@@ -5,6 +5,7 @@ package main
 import (
 	"go/ast"
 	"go/token"
+	"sort"
 	"strings"
 )
 
@@ -230,6 +231,75 @@ func c17Facts(fc *facts) {
 		fc.set("fieldTombWidth", w, true, "")
 	} else {
 		problem("fields: tombstone widths %v", tW)
+	}
+	// tombstone marker: `b[0] = 1` in writeTombstone and `marker[0] == byte(1)` in ReadTombstone
+	wm := indexAssignLits(findFuncOr(fl, "", "writeTombstone"))
+	var rm []uint64
+	ast.Inspect(findFuncOr(fl, "", "ReadTombstone"), func(x ast.Node) bool {
+		b, ok := x.(*ast.BinaryExpr)
+		if !ok || b.Op != token.EQL {
+			return true
+		}
+		if c, ok := b.Y.(*ast.CallExpr); ok && selName(c.Fun) == "byte" && len(c.Args) == 1 {
+			if v, ok := litVal(c.Args[0]); ok {
+				rm = append(rm, v)
+			}
+		}
+		return true
+	})
+	if len(wm) == 1 && len(rm) == 1 && wm[0] == rm[0] {
+		fc.set("fieldTombMark", wm[0], true, "")
+	} else {
+		problem("fields: tombstone marker written %v, read %v", wm, rm)
+	}
+	// integer conversions that truncate: uint32(offset) in IndexOffset, uint32(...) around the FlushSize sum
+	bitsOf := map[string]uint64{"uint8": 8, "uint16": 16, "uint32": 32, "uint64": 64}
+	var offConv []uint64
+	ast.Inspect(findFuncOr(si, "SearchIndex", "IndexOffset"), func(x ast.Node) bool {
+		if c, ok := x.(*ast.CallExpr); ok && len(c.Args) == 1 && selName(c.Args[0]) == "offset" {
+			if b, ok := bitsOf[selName(c.Fun)]; ok {
+				offConv = append(offConv, b)
+			}
+		}
+		return true
+	})
+	if len(offConv) == 1 {
+		fc.set("sstOffsetBits", offConv[0], true, "")
+	} else {
+		problem("IndexOffset: expected one uintNN(offset) conversion, got %v", offConv)
+	}
+	// FlushSize: return uint32(EntryOverheadSize + len(e.Key()) + len(e.Value()))
+	fsOK := false
+	if fn := findFuncOr(en, "", "FlushSize"); fn.Body != nil && len(fn.Body.List) == 1 {
+		if r, ok := fn.Body.List[0].(*ast.ReturnStmt); ok && len(r.Results) == 1 {
+			if c, ok := r.Results[0].(*ast.CallExpr); ok && len(c.Args) == 1 {
+				var terms []string
+				var flat func(e ast.Expr)
+				flat = func(e ast.Expr) {
+					if b, ok := e.(*ast.BinaryExpr); ok && b.Op == token.ADD {
+						flat(b.X)
+						flat(b.Y)
+						return
+					}
+					if cc, ok := e.(*ast.CallExpr); ok && selName(cc.Fun) == "len" && len(cc.Args) == 1 {
+						if inner, ok := cc.Args[0].(*ast.CallExpr); ok {
+							terms = append(terms, "len("+selName(inner.Fun)+"())")
+							return
+						}
+					}
+					terms = append(terms, selName(e))
+				}
+				flat(c.Args[0])
+				sort.Strings(terms)
+				if b, ok := bitsOf[selName(c.Fun)]; ok && strings.Join(terms, "+") == "EntryOverheadSize+len(e.Key())+len(e.Value())" {
+					fc.set("sstFlushSizeBits", b, true, "")
+					fsOK = true
+				}
+			}
+		}
+	}
+	if !fsOK {
+		problem("FlushSize is no longer uintNN(EntryOverheadSize + len(e.Key()) + len(e.Value()))")
 	}
 	// byte order: every binary.<Order> selector in fields.go and bloom.go
 	le, other := 0, 0
